@@ -2,7 +2,7 @@ open Ptgval
 open Vio
 (* model driver of C02 (and of the value part of C16).  Case line:  <mode> <configs…> | <program>
    with <program> in the one-line format of tools/jdfgen.py (to_case), parsed as in d_ptg.ml.
-   mode "val":   wf=<0|1> safe=<0|1> uninit=<0|1> done=<0|1> | <inst> R f=v… W f=v… ; … | D v0 v1 …
+   mode "val":   wf=<0|1> (wf_program_fm: first applicable input dependency wins) safe=<0|1> uninit=<0|1> done=<0|1> | <inst> R f=v… W f=v… ; … | D v0 v1 …
    from the extracted sequential execution ptg_seq_exec (PTGVal/PTGValDefs.v); instances sorted by
    class, then parameters.  Programs that are not well formed or not hazard-free print the flags only. *)
 
@@ -106,7 +106,7 @@ let () =
       toks := Array.of_list (words prog); pos := 0;
       let (p, names) = p_program () in
       let ndata = ndata_of prog in
-      let wf = wf_program p in
+      let wf = wf_program_fm p in
       let safe = wf && safeb p in
       let uninit = wf && reads_uninit p in
       let b x = if x then "1" else "0" in
